@@ -27,7 +27,7 @@ BaseTerm ==
    bg |-> [c |-> << <<99, 99>>, <<48, 48>>, <<70, 70>> >>, st |-> "st"],       \* rgb:cc/00/FF
    name |-> <<75, 99>>, ver |-> <<49, 46, 99>>, form |-> "paren", xst |-> "st",  \* Kc(1.c)
    cell |-> <<20, 10>>, area |-> <<480, 800>>,
-   kid |-> 31, kmsg |-> MsgOK, da1 |-> <<54>>]
+   kid |-> 31, kmsg |-> MsgOK, da1 |-> <<54>>, envName |-> <<>>, envVer |-> <<>>]
 
 \* ---- partitions of a reply stream into bursts (each reply a unit) and their delays ----
 RECURSIVE Groupings(_)
@@ -86,6 +86,18 @@ DisabledPars ==
   {P(op, FALSE, FALSE, [BaseTerm EXCEPT !.sup = {"fg", "bg", "xtv", "cell", "area", "kitty", "da1"}],
      Win(0, 0), FALSE, <<120>>, <<>>) : op \in {"colors", "namever", "cellsize", "kitty", "iterm2", "auto"}}
 
+\* environment fallback: XTVERSION answered / unanswered / queries disabled  x  $TERM_PROGRAM unset /
+\* lower-case / mixed-case  x  $TERM_PROGRAM_VERSION unset / set.  The name is always reported in
+\* lower case; an answered XTVERSION wins over the environment.
+EnvNames == {<<>>, <<119, 101, 122, 116, 101, 114, 109>> (* wezterm *), <<87, 101, 122, 84, 101, 114, 109>> (* WezTerm *),
+             <<105, 84, 101, 114, 109, 46, 97, 112, 112>> (* iTerm.app *)}
+EnvVers == {<<>>, <<51, 46, 52>> (* 3.4 *)}
+NameEnvPars ==
+  {P(op, en, FALSE, t, Win(0, 0), FALSE, <<>>, <<OneBurst(Replies(t, ReqNameVer)), OneBurst(Replies(t, ReqKitty))>>) :
+     op \in {"namever", "iterm2", "auto"}, en \in BOOLEAN,
+     t \in {[BaseTerm EXCEPT !.sup = s, !.envName = n, !.envVer = v] :
+              s \in {{"xtv", "da1"}, {"da1"}, {}}, n \in EnvNames, v \in EnvVers}}
+
 \* histories: disable_queries(); op(); enable_queries(); op() - the second call must reach the
 \* terminal and report what it says (nothing learnt while disabled may survive)
 FullTerm == [BaseTerm EXCEPT !.sup = {"fg", "bg", "xtv", "cell", "area", "kitty", "da1"}]
@@ -136,7 +148,7 @@ TablePars ==
   \cup {P("iterm2", TRUE, FALSE, t, Win(0, 0), FALSE, <<>>, <<OneBurst(Replies(t, ReqNameVer))>>) :
           t \in {u \in TableTerms : u.kid = 31 /\ u.kmsg = MsgOK /\ "kitty" \in u.sup}}
 
-Params == ColorPars \cup NamePars \cup CellPars \cup KittyPars \cup DisabledPars \cup HistoryPars
+Params == ColorPars \cup NamePars \cup CellPars \cup KittyPars \cup DisabledPars \cup HistoryPars \cup NameEnvPars
           \cup (IF Table THEN TablePars ELSE {})
 
 Cfg(p) == [enabled |-> p.enabled, qtmo |-> Tmo, swap |-> p.swap, term |-> p.term]
